@@ -302,7 +302,7 @@ func menusFor(c *engine.Ctx) menus {
 		return menus{
 			opKeys: []string{"K1", "K2"}, fetchKeys: []string{"K1", "K2", "K3"}, encs: []string{"E1", "E2"},
 			opNonces: []string{"N1", "N2"}, fetchNonces: []string{"N1", "N2", "T1", "T2", "Tx", "Tg"},
-			variants: []int{0, 1, 2, 3, 4, 5, 6, 7}, tokens: []string{"T1", "T2"}, depth: 0,
+			variants: []int{0, 1, 2, 3, 4, 5, 6, 7}, tokens: []string{"T1", "T2"}, depth: 4,
 		}
 	}
 	return menus{
@@ -542,7 +542,7 @@ func init() {
 	engine.Register(&engine.CheckDef{
 		ID:    "C01",
 		Level: "model_checking",
-		Rule: "BFS over operator actions {authorize(K,E,N), create token, remove node, age past the token lifetime} and every well-signed fetch request from {K1,K2,K3}x{E1,E2}x{N1,N2,T1,T2,forged token,garbage}x{8 wrapped / re-wrapped variants}x{registration wrapper configured or not} (quick: reduced menus, depth 3; thorough: full menus to fixpoint), from two initial states (re-wrapping node R registered or not); state key = per key (nonce id, encryption key id) of its record, per token status, all record ids; " +
+		Rule: "BFS over operator actions {authorize(K,E,N), create token, remove node, age past the token lifetime} and every well-signed fetch request from {K1,K2,K3}x{E1,E2}x{N1,N2,T1,T2,forged token,garbage}x{8 wrapped / re-wrapped variants}x{registration wrapper configured or not} (quick: reduced menus, depth 3; thorough: full menus, depth 4 - the full-menu fixpoint has > 70000 states x 576 fetch shapes and does not finish in the thorough budget), from two initial states (re-wrapping node R registered or not); state key = per key (nonce id, encryption key id) of its record, per token status, all record ids; " +
 			"states/transitions are counted by the search; distinct_nontrivial = distinct (oracle branch, request class) pairs observed",
 		Assumptions: []string{"a 'forged' request is one assembled from other pool members; signature forgery is outside the model", "the canonical key drops the server encryption key, certificate bundles and state of a record: no transition or oracle of this check reads them"},
 		Shards:      func(c *engine.Ctx) int { return 2 },
